@@ -9,29 +9,33 @@ taken at `enter` is intact).
 -/
 namespace Pysnark
 
-theorem enter_live {ctx ctx' : BCtx} {c : LinComb} {bv : BV} {s s1 : St} (hl : Live s)
+theorem enter_live {r : Nat} {ctx ctx' : BCtx} {c : LinComb} {bv : BV} {s s1 : St} (hl : Live r s)
     (h : ctx.enter c bv s = .ok (ctx', s1)) :
-    ctx' = { ctx with bak := bv.vals, cond := c, origguard := ⟨s.guard, s.ignoreErrors, s.one⟩ } ∧
-    LiveT ctx'.origguard ∧ (c.value = 1 → Live s1) := by
+    ctx' = { ctx with bak := bv.vals.backup, cond := c, origguard := ⟨s.guard, s.ignoreErrors, s.one⟩ } ∧
+    LiveT ctx'.origguard ∧ (c.value = 1 → Live r s1) ∧ s1.resolution = r := by
   obtain ⟨og, hg, rfl⟩ := enter_ok h
-  obtain ⟨rfl, hl1⟩ := addGuard_live hl hg
-  exact ⟨rfl, hl.triple, hl1⟩
+  obtain ⟨rfl, _, hl1⟩ := addGuard_live hl hg
+  exact ⟨rfl, hl.triple, hl1, (addGuard_res hg).trans hl.res⟩
 
-theorem view_nil (vals : Vals) (x : Nat) : view [] vals x = vals.valOf x := rfl
+theorem view_nil (r : Nat) (vals : Vals) (x : Nat) : view r [] vals x = vals.valOf r x := rfl
 
-theorem view_congr {nd nd' vals vals' : Vals} (h1 : ∀ x, nd'.valOf x = nd.valOf x)
-    (h2 : ∀ x, vals'.valOf x = vals.valOf x) (x : Nat) : view nd' vals' x = view nd vals x := by
+theorem view_congr {r : Nat} {nd nd' vals vals' : Vals} (h1 : ∀ x, nd'.valOf r x = nd.valOf r x)
+    (h2 : ∀ x, vals'.valOf r x = vals.valOf r x) (x : Nat) : view r nd' vals' x = view r nd vals x := by
   unfold view; rw [h1 x, h2 x]
+
+/-- the snapshot taken at `enter` stands for the same numbers as the variables -/
+theorem RefV.backup {r : Nat} {vals : Vals} {E : NEnv} (h : RefV r vals E) : RefV r vals.backup E :=
+  ⟨fun x => by rw [valOf_backup]; exact h.eq x, bok_backup h.bok⟩
 
 theorem Disj.congr {nd nd' vals vals' : Vals} (hd : Disj nd vals) (h1 : ∀ x, nd'.has x = nd.has x)
     (h2 : ∀ x, vals'.has x = vals.has x) : Disj nd' vals' := fun x hx => by
   rw [h2 x]; exact hd x (by rw [← h1 x]; exact hx)
 
-theorem has_of_valOf_eq {a b : Vals} (h : ∀ x, a.valOf x = b.valOf x) (x : Nat) : a.has x = b.has x := by
+theorem has_of_valOf_eq {r : Nat} {a b : Vals} (h : ∀ x, a.valOf r x = b.valOf r x) (x : Nat) : a.has x = b.has x := by
   have := h x
   cases ha : a.has x with
   | true =>
-    obtain ⟨v, hv⟩ := has_valOf ha
+    obtain ⟨v, hv⟩ := has_valOf r ha
     rw [hv] at this
     exact (valOf_some_has this.symm).symm
   | false =>
@@ -42,81 +46,85 @@ theorem has_of_valOf_eq {a b : Vals} (h : ∀ x, a.valOf x = b.valOf x) (x : Nat
 
 /-- pending segment of an `if` chain in which an arm has been taken (this one, or an earlier one);
 `ET` is what the native program has after that arm -/
-structure PendT (ET : NEnv) (ctx : BCtx) (vals : Vals) : Prop where
+structure PendT (r : Nat) (ET : NEnv) (ctx : BCtx) (vals : Vals) : Prop where
   isIf : ctx.isIf = true
   og : LiveT ctx.origguard
   ic : ctx.icond = none ∨ ∃ ic, ctx.icond = some ic ∧ ic.value = 0
-  seg : (ctx.cond.value = 1 ∧ RefV vals ET) ∨
-        (ctx.cond.value = 0 ∧ ∃ nd, ctx.nodefvals = some nd ∧ (∀ x, view nd ctx.bak x = ET.get? x) ∧
-          Disj nd ctx.bak ∧ ∀ x, ctx.bak.has x = true → vals.has x = true)
+  seg : (ctx.cond.value = 1 ∧ RefV r vals ET) ∨
+        (ctx.cond.value = 0 ∧ ∃ nd, ctx.nodefvals = some nd ∧ (∀ x, view r nd ctx.bak x = ET.valOf r x) ∧
+          Disj nd ctx.bak ∧ (∀ x, ctx.bak.has x = true → vals.has x = true) ∧ nd.bok ∧ ctx.bak.bok)
 
 /-- pending segment of an `if` chain in which no arm has been taken so far (this one included);
 `E0` is what the native program had when it reached the `if` -/
-structure PendO (E0 : NEnv) (ctx : BCtx) (vals : Vals) : Prop where
+structure PendO (r : Nat) (E0 : NEnv) (ctx : BCtx) (vals : Vals) : Prop where
   isIf : ctx.isIf = true
   og : LiveT ctx.origguard
   ic : ∃ ic, ctx.icond = some ic ∧ ic.value = 1
   cond : ctx.cond.value = 0
-  bak : RefV ctx.bak E0
+  bak : RefV r ctx.bak E0
   mono : ∀ x, ctx.bak.has x = true → vals.has x = true
   disj : ∀ nd0, ctx.nodefvals = some nd0 → Disj nd0 ctx.bak
 
 /-- between two arms, an arm has been taken -/
-structure BetT (ET : NEnv) (ctx : BCtx) (vals : Vals) : Prop where
+structure BetT (r : Nat) (ET : NEnv) (ctx : BCtx) (vals : Vals) : Prop where
   isIf : ctx.isIf = true
   ic : ctx.icond = none ∨ ∃ ic, ctx.icond = some ic ∧ ic.value = 0
-  nd : ∃ nd, ctx.nodefvals = some nd ∧ (∀ x, view nd vals x = ET.get? x) ∧ Disj nd vals
+  nd : ∃ nd, ctx.nodefvals = some nd ∧ (∀ x, view r nd vals x = ET.valOf r x) ∧ Disj nd vals ∧ nd.bok ∧ vals.bok
 
 /-- between two arms, no arm has been taken -/
-structure BetO (E0 : NEnv) (ctx : BCtx) (vals : Vals) : Prop where
+structure BetO (r : Nat) (E0 : NEnv) (ctx : BCtx) (vals : Vals) : Prop where
   isIf : ctx.isIf = true
   ic : ∃ ic, ctx.icond = some ic ∧ ic.value = 1
   nd : ∃ nd, ctx.nodefvals = some nd ∧ Disj nd vals
-  ref : RefV vals E0
+  ref : RefV r vals E0
 
-theorem PendT.mono {ET : NEnv} {ctx : BCtx} {vals vals' : Vals} (hp : PendT ET ctx vals)
-    (hc : ctx.cond.value = 0) (h : ∀ x, vals.has x = true → vals'.has x = true) : PendT ET ctx vals' := by
+theorem PendT.mono {r : Nat} {ET : NEnv} {ctx : BCtx} {vals vals' : Vals} (hp : PendT r ET ctx vals)
+    (hc : ctx.cond.value = 0) (h : ∀ x, vals.has x = true → vals'.has x = true) : PendT r ET ctx vals' := by
   refine ⟨hp.isIf, hp.og, hp.ic, ?_⟩
-  rcases hp.seg with ⟨h1, _⟩ | ⟨h0, nd, hn, hv, hd, hm⟩
+  rcases hp.seg with ⟨h1, _⟩ | ⟨h0, nd, hn, hv, hd, hm, hb⟩
   · rw [hc] at h1; cases h1
-  · exact Or.inr ⟨h0, nd, hn, hv, hd, fun x hx => h x (hm x hx)⟩
+  · exact Or.inr ⟨h0, nd, hn, hv, hd, fun x hx => h x (hm x hx), hb⟩
 
-theorem PendO.mono' {E0 : NEnv} {ctx : BCtx} {vals vals' : Vals} (hp : PendO E0 ctx vals)
-    (h : ∀ x, vals.has x = true → vals'.has x = true) : PendO E0 ctx vals' :=
+theorem PendO.mono' {r : Nat} {E0 : NEnv} {ctx : BCtx} {vals vals' : Vals} (hp : PendO r E0 ctx vals)
+    (h : ∀ x, vals.has x = true → vals'.has x = true) : PendO r E0 ctx vals' :=
   ⟨hp.isIf, hp.og, hp.ic, hp.cond, hp.bak, fun x hx => h x (hp.mono x hx), hp.disj⟩
 
-theorem exit_pendT {ET : NEnv} {ctx ctx' : BCtx} {bv bv' : BV} {s s' : St} (hp : PendT ET ctx bv.vals)
-    (h : ctx.exit bv s = .ok ((ctx', bv'), s')) : Live s' ∧ BetT ET ctx' bv'.vals := by
+theorem exit_pendT {r : Nat} {ET : NEnv} {ctx ctx' : BCtx} {bv bv' : BV} {s s' : St} (hp : PendT r ET ctx bv.vals)
+    (hres : s.resolution = r) (h : ctx.exit bv s = .ok ((ctx', bv'), s')) : Live r s' ∧ BetT r ET ctx' bv'.vals := by
   obtain ⟨e1, _, _, e4, _, _⟩ := exit_struct h
-  rcases hp.seg with ⟨h1, hr⟩ | ⟨h0, nd, hn, hv, hd, hm⟩
-  · obtain ⟨hl, nd', hn', hview, hdisj, _⟩ := exit_live h1 hp.og h
-    exact ⟨hl, ⟨e1 ▸ hp.isIf, e4 ▸ hp.ic, nd', hn', fun x => (hview x).trans (hr x), hdisj⟩⟩
-  · obtain ⟨hl, nd', hn', hvals, hdisj, hndv⟩ :=
-      exit_dead h0 hp.og hm (fun nd0 h0' => by rw [hn] at h0'; cases h0'; exact hd) h
-    refine ⟨hl, ⟨e1 ▸ hp.isIf, e4 ▸ hp.ic, nd', hn', fun x => ?_, hdisj⟩⟩
-    rw [view_congr (hndv nd hn) hvals x]; exact hv x
+  rcases hp.seg with ⟨h1, hr⟩ | ⟨h0, nd, hn, hv, hd, hm, hnb, hbb⟩
+  · obtain ⟨hl, nd', hn', hview, hdisj, _, hbok⟩ := exit_live h1 hp.og hres h
+    obtain ⟨b1, b2⟩ := hbok hr.bok
+    exact ⟨hl, ⟨e1 ▸ hp.isIf, e4 ▸ hp.ic, nd', hn', fun x => (hview x).trans (hr.eq x), hdisj, b1, b2⟩⟩
+  · obtain ⟨hl, nd', hn', hvals, hdisj, hndv, hbok⟩ :=
+      exit_dead h0 hp.og hres hm (fun nd0 h0' => by rw [hn] at h0'; cases h0'; exact hd) h
+    obtain ⟨hndv1, hndv2⟩ := hndv nd hn
+    refine ⟨hl, ⟨e1 ▸ hp.isIf, e4 ▸ hp.ic, nd', hn', fun x => ?_, hdisj, hndv2 hnb, hbok hbb⟩⟩
+    rw [view_congr hndv1 hvals x]; exact hv x
 
-theorem exit_pendO {E0 : NEnv} {ctx ctx' : BCtx} {bv bv' : BV} {s s' : St} (hp : PendO E0 ctx bv.vals)
-    (h : ctx.exit bv s = .ok ((ctx', bv'), s')) : Live s' ∧ BetO E0 ctx' bv'.vals := by
+theorem exit_pendO {r : Nat} {E0 : NEnv} {ctx ctx' : BCtx} {bv bv' : BV} {s s' : St} (hp : PendO r E0 ctx bv.vals)
+    (hres : s.resolution = r) (h : ctx.exit bv s = .ok ((ctx', bv'), s')) : Live r s' ∧ BetO r E0 ctx' bv'.vals := by
   obtain ⟨e1, _, _, e4, _, _⟩ := exit_struct h
-  obtain ⟨hl, nd', hn', hvals, hdisj, _⟩ := exit_dead hp.cond hp.og hp.mono hp.disj h
-  exact ⟨hl, ⟨e1 ▸ hp.isIf, e4 ▸ hp.ic, ⟨nd', hn', hdisj⟩, fun x => (hvals x).trans (hp.bak x)⟩⟩
+  obtain ⟨hl, nd', hn', hvals, hdisj, _, hbok⟩ := exit_dead hp.cond hp.og hres hp.mono hp.disj h
+  exact ⟨hl, ⟨e1 ▸ hp.isIf, e4 ▸ hp.ic, ⟨nd', hn', hdisj⟩, ⟨fun x => (hvals x).trans (hp.bak.eq x), hbok hp.bak.bok⟩⟩⟩
 
 /-- `_endif()` after an arm was taken -/
-theorem ifEnd_pendT {ET : NEnv} {ctx : BCtx} {bv bv' : BV} {s s' : St} (hp : PendT ET ctx bv.vals)
-    (h : ifEnd ctx bv s = .ok (bv', s')) : Live s' ∧ RefV bv'.vals ET := by
+theorem ifEnd_pendT {r : Nat} {ET : NEnv} {ctx : BCtx} {bv bv' : BV} {s s' : St} (hp : PendT r ET ctx bv.vals)
+    (hres : s.resolution = r) (h : ifEnd ctx bv s = .ok (bv', s')) : Live r s' ∧ RefV r bv'.vals ET := by
   obtain ⟨ctx1, bv1, hx, _, rfl⟩ := ifEnd_ok h
-  obtain ⟨hl, hb⟩ := exit_pendT hp hx
-  obtain ⟨nd, hn, hv, _⟩ := hb.nd
-  refine ⟨hl, fun x => ?_⟩
-  simp only [hn, Option.getD_some]
-  rw [valOf_setAll]; exact hv x
+  obtain ⟨hl, hb⟩ := exit_pendT hp hres hx
+  obtain ⟨nd, hn, hv, _, hnb, hvb⟩ := hb.nd
+  refine ⟨hl, ⟨fun x => ?_, ?_⟩⟩
+  · simp only [hn, Option.getD_some]
+    rw [valOf_setAll]; exact hv x
+  · simp only [hn, Option.getD_some]
+    exact hvb.setAll hnb
 
 /-- `_endif()` when no arm was taken: nothing may have been bound inside the chain -/
-theorem ifEnd_pendO {E0 : NEnv} {ctx : BCtx} {bv bv' : BV} {s s' : St} (hp : PendO E0 ctx bv.vals)
-    (h : ifEnd ctx bv s = .ok (bv', s')) : Live s' ∧ RefV bv'.vals E0 := by
+theorem ifEnd_pendO {r : Nat} {E0 : NEnv} {ctx : BCtx} {bv bv' : BV} {s s' : St} (hp : PendO r E0 ctx bv.vals)
+    (hres : s.resolution = r) (h : ifEnd ctx bv s = .ok (bv', s')) : Live r s' ∧ RefV r bv'.vals E0 := by
   obtain ⟨ctx1, bv1, hx, hchk, rfl⟩ := ifEnd_ok h
-  obtain ⟨hl, hb⟩ := exit_pendO hp hx
+  obtain ⟨hl, hb⟩ := exit_pendO hp hres hx
   obtain ⟨nd, hn, _⟩ := hb.nd
   obtain ⟨ic, hic, _⟩ := hb.ic
   have hnil : nd = [] := by
@@ -124,77 +132,88 @@ theorem ifEnd_pendO {E0 : NEnv} {ctx : BCtx} {bv bv' : BV} {s s' : St} (hp : Pen
     · simp only [hn, Option.getD_some] at he
       exact List.isEmpty_iff.mp he
     · rw [hic] at hi; cases hi
-  refine ⟨hl, fun x => ?_⟩
-  simp only [hn, Option.getD_some, hnil]
-  rw [valOf_setAll, view_nil]; exact hb.ref x
+  refine ⟨hl, ⟨fun x => ?_, ?_⟩⟩
+  · simp only [hn, Option.getD_some, hnil]
+    rw [valOf_setAll, view_nil]; exact hb.ref.eq x
+  · simp only [hn, Option.getD_some, hnil]
+    exact hb.ref.bok.setAll Vals.bok_nil
 
 /-- `_else()` after an arm was taken: the else arm runs under a false guard -/
-theorem ifElse_betT {ET : NEnv} {ctx ctx' : BCtx} {bv bv' : BV} {s s' : St} (hp : PendT ET ctx bv.vals)
-    (h : ifElse ctx bv s = .ok ((ctx', bv'), s')) : PendT ET ctx' bv'.vals := by
+theorem ifElse_betT {r : Nat} {ET : NEnv} {ctx ctx' : BCtx} {bv bv' : BV} {s s' : St} (hp : PendT r ET ctx bv.vals)
+    (hres : s.resolution = r) (h : ifElse ctx bv s = .ok ((ctx', bv'), s')) :
+    PendT r ET ctx' bv'.vals ∧ ctx'.cond.value = 0 ∧ s'.resolution = r := by
   obtain ⟨ctx1, s1, ic, ctx2, hx, hic, hen, rfl⟩ := ifElse_ok h
-  obtain ⟨hl, hb⟩ := exit_pendT hp hx
-  obtain ⟨rfl, hlt, _⟩ := enter_live hl hen
-  obtain ⟨nd, hn, hv, hd⟩ := hb.nd
+  obtain ⟨hl, hb⟩ := exit_pendT hp hres hx
+  obtain ⟨rfl, hlt, _, hres'⟩ := enter_live hl hen
+  obtain ⟨nd, hn, hv, hd, hnb, hvb⟩ := hb.nd
   have hic0 : ic.value = 0 := by
     rcases hb.ic with h0 | ⟨ic', h1, h2⟩
     · rw [hic] at h0; cases h0
     · rw [hic] at h1; cases h1; exact h2
-  exact ⟨hb.isIf, hlt, Or.inl rfl, Or.inr ⟨hic0, nd, hn, hv, hd, fun x hx => hx⟩⟩
+  refine ⟨⟨hb.isIf, hlt, Or.inl rfl, Or.inr ⟨hic0, nd, hn, ?_, ?_, ?_, hnb, bok_backup hvb⟩⟩, hic0, hres'⟩
+  · intro x
+    rw [view_congr (fun _ => rfl) (valOf_backup r bv'.vals) x]; exact hv x
+  · intro x hx; show Vals.has bv'.vals.backup x = false; rw [Vals.has_backup]; exact hd x hx
+  · intro x hx; rw [← Vals.has_backup]; exact hx
 
 /-- `_else()` when no arm was taken: the else arm runs under a true guard; afterwards it is the
 taken arm -/
-theorem ifElse_betO {E0 : NEnv} {ctx ctx' : BCtx} {bv bv' : BV} {s s' : St} (hp : PendO E0 ctx bv.vals)
-    (h : ifElse ctx bv s = .ok ((ctx', bv'), s')) :
-    Live s' ∧ RefV bv'.vals E0 ∧ ctx'.isIf = true ∧ LiveT ctx'.origguard ∧ ctx'.icond = none ∧ ctx'.cond.value = 1 := by
+theorem ifElse_betO {r : Nat} {E0 : NEnv} {ctx ctx' : BCtx} {bv bv' : BV} {s s' : St} (hp : PendO r E0 ctx bv.vals)
+    (hres : s.resolution = r) (h : ifElse ctx bv s = .ok ((ctx', bv'), s')) :
+    Live r s' ∧ RefV r bv'.vals E0 ∧ ctx'.isIf = true ∧ LiveT ctx'.origguard ∧ ctx'.icond = none ∧ ctx'.cond.value = 1 := by
   obtain ⟨ctx1, s1, ic, ctx2, hx, hic, hen, rfl⟩ := ifElse_ok h
-  obtain ⟨hl, hb⟩ := exit_pendO hp hx
-  obtain ⟨rfl, hlt, hl1⟩ := enter_live hl hen
+  obtain ⟨hl, hb⟩ := exit_pendO hp hres hx
+  obtain ⟨rfl, hlt, hl1, _⟩ := enter_live hl hen
   obtain ⟨ic', h1, h2⟩ := hb.ic
   rw [hic] at h1; cases h1
   exact ⟨hl1 h2, hb.ref, hb.isIf, hlt, rfl, h2⟩
 
 /-- `_elif(c)` after an arm was taken -/
-theorem ifElif_betT {ET : NEnv} {env : BEnv} {nc : NCtx} (hi : RefI env nc) {c : BCond} {ctx ctx' : BCtx}
-    {bv bv' : BV} {s s' : St} (hp : PendT ET ctx bv.vals)
-    (h : ifElif ctx (fun bv => evalC env bv c) bv s = .ok ((ctx', bv'), s')) : PendT ET ctx' bv'.vals := by
+theorem ifElif_betT {r : Nat} {ET : NEnv} {env : BEnv} {c : BCond} {ctx ctx' : BCtx}
+    {bv bv' : BV} {s s' : St} (hp : PendT r ET ctx bv.vals) (hres : s.resolution = r)
+    (h : ifElif ctx (fun bv => evalC env bv c) bv s = .ok ((ctx', bv'), s')) :
+    PendT r ET ctx' bv'.vals ∧ ctx'.cond.value = 0 ∧ s'.resolution = r := by
   obtain ⟨ctx1, s1, nw, s2, ic, nn, s3, nwic, s4, cc, s5, ctx2, hx, hth, hic, hnn, hnwic, hcc, hen, rfl⟩ := ifElif_ok h
-  obtain ⟨hl, hb⟩ := exit_pendT hp hx
-  obtain ⟨sm2, _, _, _⟩ := evalC_live_any hi hl hth
+  obtain ⟨hl, hb⟩ := exit_pendT hp hres hx
+  have sm2 := evalC_same hth
   obtain ⟨sm3, _, _⟩ := boolNot_val hnn
   obtain ⟨sm4, v4, _⟩ := andBB_val hnwic
   obtain ⟨sm5, v5, _⟩ := andBB_val hcc
-  have hl5 : Live s5 := (((hl.same sm2).same sm3).same sm4).same sm5
-  obtain ⟨rfl, hlt, _⟩ := enter_live hl5 hen
-  obtain ⟨nd, hn, hv, hd⟩ := hb.nd
+  have hl5 : Live r s5 := (((hl.same sm2).same sm3).same sm4).same sm5
+  obtain ⟨rfl, hlt, _, hres'⟩ := enter_live hl5 hen
+  obtain ⟨nd, hn, hv, hd, hnb, hvb⟩ := hb.nd
   have hic0 : ic.value = 0 := by
     rcases hb.ic with h0 | ⟨ic', h1, h2⟩
     · rw [hic] at h0; cases h0
     · rw [hic] at h1; cases h1; exact h2
-  refine ⟨hb.isIf, hlt, Or.inr ⟨nwic, rfl, by rw [v4, hic0]; ring⟩, Or.inr ⟨?_, nd, hn, hv, hd, fun x hx => hx⟩⟩
-  show cc.value = 0
-  rw [v5, hic0]; ring
+  have hcc0 : cc.value = 0 := by rw [v5, hic0]; ring
+  refine ⟨⟨hb.isIf, hlt, Or.inr ⟨nwic, rfl, by rw [v4, hic0]; ring⟩, Or.inr ⟨hcc0, nd, hn, ?_, ?_, ?_, hnb, bok_backup hvb⟩⟩, hcc0, hres'⟩
+  · intro x
+    rw [view_congr (fun _ => rfl) (valOf_backup r bv'.vals) x]; exact hv x
+  · intro x hx; show Vals.has bv'.vals.backup x = false; rw [Vals.has_backup]; exact hd x hx
+  · intro x hx; rw [← Vals.has_backup]; exact hx
 
 /-- `_elif(c)` when no arm was taken: `c` is evaluated on the variables the native program has -/
-theorem ifElif_betO {E0 : NEnv} {env : BEnv} {nc : NCtx} (hi : RefI env nc) {c : BCond} {ctx ctx' : BCtx}
-    {bv bv' : BV} {s s' : St} (hp : PendO E0 ctx bv.vals)
+theorem ifElif_betO {r : Nat} {E0 : NEnv} {env : BEnv} {nc : NCtx} (hi : RefI r env nc) {c : BCond} {ctx ctx' : BCtx}
+    {bv bv' : BV} {s s' : St} (hp : PendO r E0 ctx bv.vals) (hres : s.resolution = r)
     (h : ifElif ctx (fun bv => evalC env bv c) bv s = .ok ((ctx', bv'), s')) :
-    ∃ b, nEvalC nc E0 c = .ok b ∧ RefV bv'.vals E0 ∧
-      (b = true → Live s' ∧ ctx'.isIf = true ∧ LiveT ctx'.origguard ∧ ctx'.cond.value = 1 ∧
+    ∃ b, nEvalC nc E0 c = .ok b ∧ RefV r bv'.vals E0 ∧
+      (b = true → Live r s' ∧ ctx'.isIf = true ∧ LiveT ctx'.origguard ∧ ctx'.cond.value = 1 ∧
         ∃ ic, ctx'.icond = some ic ∧ ic.value = 0) ∧
-      (b = false → PendO E0 ctx' bv'.vals) := by
+      (b = false → PendO r E0 ctx' bv'.vals) ∧ s'.resolution = r := by
   obtain ⟨ctx1, s1, nw, s2, ic, nn, s3, nwic, s4, cc, s5, ctx2, hx, hth, hic, hnn, hnwic, hcc, hen, rfl⟩ := ifElif_ok h
-  obtain ⟨hl, hb⟩ := exit_pendO hp hx
-  obtain ⟨sm2, b, r, hnat, hr, vr⟩ := evalC_live hi hb.ref hl hth
-  cases hr
+  obtain ⟨hl, hb⟩ := exit_pendO hp hres hx
+  obtain ⟨sm2, b, hnat, hvr⟩ := evalC_live hi hb.ref hl hth
+  have vr := hvr nw rfl
   obtain ⟨sm3, v3, _⟩ := boolNot_val hnn
   obtain ⟨sm4, v4, _⟩ := andBB_val hnwic
   obtain ⟨sm5, v5, _⟩ := andBB_val hcc
-  have hl5 : Live s5 := (((hl.same sm2).same sm3).same sm4).same sm5
-  obtain ⟨rfl, hlt, hl1⟩ := enter_live hl5 hen
+  have hl5 : Live r s5 := (((hl.same sm2).same sm3).same sm4).same sm5
+  obtain ⟨rfl, hlt, hl1, hres'⟩ := enter_live hl5 hen
   obtain ⟨ic', h1, h2⟩ := hb.ic
   rw [hic] at h1; cases h1
   obtain ⟨nd, hn, hd⟩ := hb.nd
-  refine ⟨b, hnat, hb.ref, ?_, ?_⟩
+  refine ⟨b, hnat, hb.ref, ?_, ?_, hres'⟩
   · intro hbt
     subst hbt
     simp only [if_true] at vr
@@ -204,16 +223,20 @@ theorem ifElif_betO {E0 : NEnv} {env : BEnv} {nc : NCtx} (hi : RefI env nc) {c :
     subst hbf
     simp only [Bool.false_eq_true, if_false] at vr
     have hcv : cc.value = 0 := by rw [v5, h2, vr]; ring
-    exact ⟨hb.isIf, hlt, ⟨nwic, rfl, by rw [v4, h2, v3, vr]; ring⟩, hcv, hb.ref, fun x hx => hx,
-      fun nd0 h0 => by rw [hn] at h0; cases h0; exact hd⟩
+    refine ⟨hb.isIf, hlt, ⟨nwic, rfl, by rw [v4, h2, v3, vr]; ring⟩, hcv, hb.ref.backup, ?_, ?_⟩
+    · intro x hx; rw [← Vals.has_backup]; exact hx
+    · intro nd0 h0 x hx
+      rw [hn] at h0; cases h0
+      show Vals.has bv'.vals.backup x = false
+      rw [Vals.has_backup]; exact hd x hx
 
 /-- `_if(c)` from a live state -/
-theorem ifNew_live {c : LinComb} {bv : BV} {ctx : BCtx} {s s' : St} (hl : Live s) (h : ifNew c bv s = .ok (ctx, s')) :
-    ctx.isIf = true ∧ LiveT ctx.origguard ∧ ctx.bak = bv.vals ∧ ctx.cond = c ∧ ctx.nodefvals = none ∧
-    (∃ ic, ctx.icond = some ic ∧ ic.value = 1 - c.value) ∧ (c.value = 1 → Live s') := by
+theorem ifNew_live {r : Nat} {c : LinComb} {bv : BV} {ctx : BCtx} {s s' : St} (hl : Live r s) (h : ifNew c bv s = .ok (ctx, s')) :
+    ctx.isIf = true ∧ LiveT ctx.origguard ∧ ctx.bak = bv.vals.backup ∧ ctx.cond = c ∧ ctx.nodefvals = none ∧
+    (∃ ic, ctx.icond = some ic ∧ ic.value = 1 - c.value) ∧ (c.value = 1 → Live r s') ∧ BoolLC c ∧ s'.resolution = r := by
   obtain ⟨ic, s1, og, hn, hg, rfl⟩ := ifNew_ok h
-  obtain ⟨sm, v, _⟩ := boolNot_val hn
-  obtain ⟨rfl, hl1⟩ := addGuard_live (hl.same sm) hg
-  exact ⟨rfl, (hl.same sm).triple, rfl, rfl, rfl, ⟨ic, rfl, v⟩, hl1⟩
+  obtain ⟨sm, v, hb⟩ := boolNot_val hn
+  obtain ⟨rfl, _, hl1⟩ := addGuard_live (hl.same sm) hg
+  exact ⟨rfl, (hl.same sm).triple, rfl, rfl, rfl, ⟨ic, rfl, v⟩, hl1, hb, (addGuard_res hg).trans (hl.same sm).res⟩
 
 end Pysnark
